@@ -312,10 +312,9 @@ func (r *relay) processor(id uint32) Processor {
 }
 
 func (r *relay) updateTableSize(v uint32) {
-	r.decoderMu.Lock()
-	r.decoder.SetMaxDynamicTableSize(v)
-	r.decoderMu.Unlock()
-
+	// Only the encoder is affected. The decoder must keep its table until the peer's encoder
+	// announces the new size with a dynamic table size update at the start of a header block,
+	// header blocks that were encoded before the peer saw the setting may still be in flight.
 	r.encoderMu.Lock()
 	r.encoder.SetMaxDynamicTableSize(v)
 	r.encoderMu.Unlock()
